@@ -491,7 +491,9 @@ def d1_summation(ctx, idx):
         fi0 = idx.func(SG + '.perform_summation')
         if not fi0.is_static or fi0.params[:5] != ['eval_summand', 'lower', 'upper', 'even_odd', 'infty_val']:
             raise AnalysisError('perform_summation: signature changed: %s' % fi0.params)
-        fi = X.unrolled(fi0)
+        fi1, done = X.inline_decision_calls(idx, fi0, only=set(getattr(idx, 'unreviewed', None) or []))
+        X.settle_unreviewed(idx, done, {fi0.qualname})
+        fi = X.unrolled(fi1)
         fn = fi.node
         paths = nf.decision_paths(fn.body)
         guards = _summation_guards()
@@ -1415,6 +1417,12 @@ def d4_order(ctx, idx):
                             and X.mentions(n.generators[0].iter, SI)]:
                 g = g_owner.generators[0]
                 call = parent(g_owner)
+                if isinstance(call, ast.Assign) and len(call.targets) == 1 and isinstance(call.targets[0], ast.Name) and call.value is g_owner:
+                    # the generator is bound to a local first: `blanks = (...)`, `first = next(blanks, None)`
+                    users = [c for c in walk_own(fn) if isinstance(c, ast.Call) and isinstance(c.func, ast.Name) and c.func.id in ('next', 'any')
+                             and c.args and X.is_name(c.args[0], call.targets[0].id)]
+                    reads = [n for n in walk_own(fn) if isinstance(n, ast.Name) and n.id == call.targets[0].id and isinstance(n.ctx, ast.Load)]
+                    call = users[0] if len(users) == 1 and len(reads) == 1 and isinstance(g_owner, ast.GeneratorExp) else None
                 if not (isinstance(call, ast.Call) and isinstance(call.func, ast.Name) and call.func.id in ('next', 'any')):
                     continue
                 elem = _element_exprs(g, SI)
@@ -1536,32 +1544,61 @@ def _inline_except(expr, fn, keep):
 
 def _helpers(r, idx):
     # structure_and_validate_input
-    fi = idx.func(SB + '.structure_and_validate_input')
+    fi = X.settled(idx.func(SB + '.structure_and_validate_input'))
     fn = fi.node
     construct = 'structure_and_validate_input: a wrong number of inputs raises ConfigError'
-    ifs = [s for s in walk_own(fn) if isinstance(s, ast.If) and X.mentions(s.test, 'student_input')]
     tcall = lib.calls_named(fn, 'transform_list_to_dict')
-    if not ifs:
-        X.absent(r, construct, 'the number of inputs is never compared with the number of expected fields: a missing box leads to IndexError',
-                 fi.loc, expected='len(used_inputs) != len(student_input)',
-                 understood=X.only_calls([fn], {'len', 'sorted', 'transform_list_to_dict', 'ConfigError', 'format'}))
+    UI_PATS = ["[_K for _K in self.true_input_positions if self.true_input_positions[_K] is not None]",
+               "[_K for _K in self.true_input_positions if not self.true_input_positions[_K] is None]"]
+    ui_names = [s_.targets[0].id for s_ in walk_own(fn) if isinstance(s_, ast.Assign) and len(s_.targets) == 1 and isinstance(s_.targets[0], ast.Name)
+                and X.any_match(UI_PATS, s_.value) is not None]
+
+    def count_term(e):
+        """len(student_input) -> the surplus of inputs d in {-1, 0, +1}; len(<expected fields>) -> 0."""
+        if X.m("len(student_input)", e) is not None:
+            return lambda w: w['d']
+        if any(X.m("len(%s)" % n_, e) is not None for n_ in ui_names) or X.any_match(["len(%s)" % p_ for p_ in UI_PATS], e) is not None:
+            return lambda w: 0
+        return None
+    guards = X.Guards(lambda e: None, count_term)
+    try:
+        paths = nf.decision_paths(fn.body, keep_locals=tuple(ui_names))
+        outcome = {}
+        for d in (-1, 0, 1):
+            sel = [p_ for p_ in paths if all(guards.compile(g)({'d': d}) for g in p_.guards)]
+            if len(sel) != 1:
+                raise X.Unrecognised('paths not exclusive')
+            outcome[d] = sel[0]
+    except (X.Unrecognised, AnalysisError):
+        outcome = None
+    if outcome is None or not ui_names:
+        r.undecided(construct, 'the function is not read as a decision over len(<expected fields>) against len(student_input)', fi.loc)
     else:
-        st = ifs[0]
-        res = nf.classify("len(_UI) != len(student_input)", st.test)
-        verdict(r, construct, res, lib.loc(fi, st), short(st.test), expected='len(used_inputs) != len(student_input)',
-                why='both too few and too many inputs must be refused (too few would index past the list)')
-        ok, classes = X.body_raises(st.body)
-        r.check(ok and classes == {'ConfigError'}, construct + ' [class]', 'ConfigError', 'raises %s' % (sorted(classes) or 'nothing'), lib.loc(fi, st))
+        wrong = [outcome[-1], outcome[1]]
+        passes = [('too few' if d < 0 else 'too many') for d in (-1, 1) if outcome[d].leaf.kind != 'raise']
+        where = lib.loc(fi, wrong[0].leaf.stmt) if wrong[0].leaf.stmt is not None else fi.loc
+        if passes:
+            r.violation(construct, '%s inputs are not refused: the function goes on to index the list of inputs (too few would index past the '
+                        'list)' % ' and '.join(passes), where, expected='len(used_inputs) != len(student_input): raise ConfigError')
+        elif outcome[0].leaf.kind == 'raise':
+            r.violation(construct, 'the right number of inputs is refused as well', where)
+        else:
+            r.ok(construct, 'decided for fewer / as many / more inputs than expected fields', where)
+        classes = {nf.exc_class_name(p_.leaf.expr) for p_ in wrong if p_.leaf.kind == 'raise'}
+        if classes:
+            r.check(classes == {'ConfigError'}, construct + ' [class]', 'ConfigError', 'raises %s' % sorted(c or '?' for c in classes), where)
         if tcall:
-            r.check(X.dominates(fi, st, tcall[0]), construct + ' [before structuring]', 'dominates transform_list_to_dict',
-                    'the inputs are indexed before the count is checked', lib.loc(fi, st))
+            early = [p_ for p_ in wrong if p_.leaf.kind == 'raise' and any(
+                isinstance(c, ast.Call) and nf.callee_name(c) == 'transform_list_to_dict' for e_ in [p_.leaf.expr] + [v for v in p_.leaf.env.values()]
+                if e_ is not None for c in ast.walk(e_))]
+            r.check(not early, construct + ' [before structuring]', 'the refusal does not depend on the structured input',
+                    'the inputs are indexed before the count is checked', where)
     if tcall:
         verdict(r, 'structure_and_validate_input: inputs are mapped with the validated positions',
-                nf.classify("transform_list_to_dict(student_input, self.config['answers'], self.true_input_positions)", tcall[0]),
+                nf.classify("transform_list_to_dict(student_input, self.config['answers'], self.true_input_positions)", lib.inline_locals(tcall[0], fn)),
                 lib.loc(fi, tcall[0]), expected="transform_list_to_dict(student_input, self.config['answers'], self.true_input_positions)")
-    ui = X.find_stmts(fn, "_UI = [_K for _K in self.true_input_positions if self.true_input_positions[_K] is not None]")
-    if ui:
-        r.ok('structure_and_validate_input: expected fields = positions that are not None', '', lib.loc(fi, ui[0][0]))
+    if ui_names:
+        r.ok('structure_and_validate_input: expected fields = positions that are not None', ui_names[0], fi.loc)
     else:
         r.undecided('structure_and_validate_input: expected fields = positions that are not None', 'definition of the expected fields not recognised', fi.loc)
     # transform_list_to_dict
@@ -1647,7 +1684,7 @@ def _helpers(r, idx):
         ok, classes = X.body_raises(st.body)
         r.check(ok and classes == {'InvalidInput'}, construct + ' [class]', 'InvalidInput', 'raises %s' % (sorted(classes) or 'nothing'), lib.loc(fi, st))
     # validate_input_positions
-    fi = idx.func(SB + '.validate_input_positions')
+    fi = X.settled(idx.func(SB + '.validate_input_positions'))
     fn = fi.node
     lst = X.find_stmts(fn, "_L = [input_positions[_K] for _K in input_positions if input_positions[_K] is not None]")
     if len(lst) != 1 or not isinstance(lst[0][1]['_L'], ast.Name):
@@ -1794,7 +1831,13 @@ _W5I_CUTOFF = ("        # Check if used_funcs includes a factorial function\n   
                "        # Compute the sum\n        result = self.perform_summation(eval_summand, lower, upper,\n                                        self.config['even_odd'],\n                                        self.infinity_cutoff(%s))\n\n")
 _W5I_METHODS = ('    @staticmethod\n    def perform_summation(eval_summand, lower, upper, even_odd, infty_val=1e3):\n', '    @staticmethod\n    def validate_limits(lower, upper):\n        """\n        Ensure that the evaluated limits of a sum are real, and are either\n        integers or infinite. Raises SummationError otherwise.\n        """\n        limits = ((\'Lower\', lower), (\'Upper\', upper))\n\n        # Check to ensure that sum limits are not complex.\n        if any(isinstance(value, complex) for _, value in limits):\n            raise SummationError(\'Summation limits must be real but have evaluated \'\n                                 \'to complex numbers.\')\n\n        # Check to ensure that sum limits are integers or infinite\n        for name, value in limits:\n            if abs(value) == float(\'inf\'):\n                continue\n            if int(value) != value:\n                msg = \'{} summation limit does not evaluate to an integer.\'\n                raise SummationError(msg.format(name))\n\n    def infinity_cutoff(self, funcs):\n        """\n        Returns the number that stands in for infinity in the limits of a sum\n        that makes use of the functions named in funcs. Factorials grow so\n        quickly that they need a much smaller cutoff than everything else.\n        """\n        if self.factorial_functions.isdisjoint(funcs):\n            return self.config[\'infty_val\']\n        return self.config[\'infty_val_fact\']\n\n    @staticmethod\n    def perform_summation(eval_summand, lower, upper, even_odd, infty_val=1e3):\n')
 
+_W5R_STEP = [('        # Handle even/odd numbers only\n        if even_odd == 1:\n            # Odd numbers only\n            delta = 2\n            if abs(lower % 2) != 1:\n                lower += 1\n        elif even_odd == 2:\n            # Even numbers only\n            delta = 2\n            if abs(lower % 2) != 0:\n                lower += 1\n        else:\n            delta = 1\n\n', '        lower, delta = SumGrader._first_index_and_step(lower, even_odd)\n\n'), ('    @staticmethod\n    def perform_summation(eval_summand, lower, upper, even_odd, infty_val=1e3):\n', '    @staticmethod\n    def _first_index_and_step(first, even_odd):\n        for setting, remainder in ((1, 1), (2, 0)):\n            if even_odd == setting:\n                if abs(first % 2) != remainder:\n                    first += 1\n                return first, 2\n        return first, 1\n\n    @staticmethod\n    def perform_summation(eval_summand, lower, upper, even_odd, infty_val=1e3):\n')]
+_W5R_COUNT = ('        used_inputs = [key for key in self.true_input_positions\n                       if self.true_input_positions[key] is not None]\n        if len(used_inputs) != len(student_input):\n            # This is a ConfigError because it should only be trigged if author\n            # included wrong number of inputs in the <customresponse> problem.\n            sorted_inputs = sorted(used_inputs, key=lambda x: self.true_input_positions[x])\n            msg = ("Expected {expected} student inputs but found {found}. "\n                   "Inputs should  appear in order {order}.")\n            raise ConfigError(msg.format(expected=len(used_inputs),\n                                         found=len(student_input),\n                                         order=sorted_inputs)\n                              )\n\n        structured_input = transform_list_to_dict(student_input,\n                                                  self.config[\'answers\'],\n                                                  self.true_input_positions)\n\n        return structured_input\n\n', "        positions = self.true_input_positions\n        used_inputs = [key for key, position in positions.items() if position is not None]\n        if len(used_inputs) == len(student_input):\n            return transform_list_to_dict(student_input, self.config['answers'], positions)\n        msg = 'Expected {expected} student inputs but found {found}.'\n        raise ConfigError(msg.format(expected=len(used_inputs), found=len(student_input)))\n\n")
+_W5R_BLANK = ('        for key in structured_input:\n            if structured_input[key] == \'\':\n                msg = "Please enter a value for {key}, it cannot be empty."\n                raise MissingInput(msg.format(key=key))\n', '        blank_keys = (key for key, value in structured_input.items() if value == \'\')\n        first_blank = next(blank_keys, None)\n        if first_blank is not None:\n            msg = "Please enter a value for {key}, it cannot be empty."\n            raise MissingInput(msg.format(key=first_blank))\n')
+
 MUTANTS = [
+    Mutant('table-helper-even-remainder-wrong', IG, [(_W5R_STEP[0][0], _W5R_STEP[0][1]), (_W5R_STEP[1][0], _W5R_STEP[1][1].replace('(2, 0)', '(2, 1)'))], None, 'D1'),
+    Mutant('input-count-guard-accepts-too-many', IG, _W5R_COUNT[0], _W5R_COUNT[1].replace('len(used_inputs) == len(student_input)', 'len(used_inputs) <= len(student_input)'), 'D4'),
     Mutant('cutoff-helper-given-function-scope', IG, [_W5I_CONST, _W5I_LIMITS, (_W5I_CUTOFF[0], _W5I_CUTOFF[1] % 'funcscope'), _W5I_METHODS], None, 'D2'),
     Mutant('upper-not-inclusive', IG, "range(int(lower), int(upper + 1), delta)", "range(int(lower), int(upper), delta)", 'D1'),
     Mutant('swap-removed', IG, "        if lower > upper:\n            lower, upper = upper, lower\n", "", 'D1'),
@@ -1866,6 +1909,9 @@ MUTANTS = [
 ]
 
 BENIGN = [
+    Benign('first-index-and-step-from-table-helper', IG, _W5R_STEP, None),
+    Benign('input-count-positive-guard-items', IG, _W5R_COUNT[0], _W5R_COUNT[1]),
+    Benign('first-blank-key-via-bound-generator', IG, _W5R_BLANK[0], _W5R_BLANK[1]),
     Benign('limit-checks-and-cutoff-in-helpers', IG, [_W5I_CONST, _W5I_LIMITS, (_W5I_CUTOFF[0], _W5I_CUTOFF[1] % 'used_funcs'), _W5I_METHODS], None),
     Benign('reserved-names-as-one-union', IG, "        if varname in self.functions or varname in self.random_funcs or varname in self.constants:",
            "        if varname in set(self.functions) | set(self.random_funcs) | set(self.constants):"),
